@@ -46,7 +46,8 @@ RULE = {
     )
 }
 ASSUMPTIONS = [
-    "status trackers are replaced by a stub that reports every component working",
+    "status trackers are replaced by a stub that reports every component working, except in a quarter of the battery cases, "
+    "which keep the SDK's ComponentPoolStatusTracker and change a component's status while its call is in flight",
     "tolerance 1e-6 relative to the request",
     "API timeout 5 s of virtual time",
 ]
